@@ -69,6 +69,21 @@ HugeCases(shape) ==
              v == Mk(dt, shape, LAMBDA idx : IF idx[a + 1] = 0 THEN Fin(1) ELSE Fin(0))
          IN P(CaseRec("softmax", "Softmax", <<AI("axis", a)>>, <<X>>, MustValue(<<v>>), <<"value", "huge", dt>>))
 
+\* extreme magnitudes: maxima, minima and first-occurrence indices depend on the order of the elements only, so the semantics is
+\* evaluated on ranks -3..3 and carried over by the monotone map to -Inf < -MaxFloat < -1 < 0 < 1 < MaxFloat < +Inf
+RankVal(r) == CASE r = -3 -> NInf [] r = -2 -> NMax [] r = -1 -> Fin(-1) [] r = 0 -> Fin(0) [] r = 1 -> Fin(1) [] r = 2 -> FMax [] r = 3 -> PInf
+MapRank(t) == [t EXCEPT !.data = [k \in 1..Len(t.data) |-> RankVal(t.data[k])]]
+OrderCases(shape) ==
+   LET r == Len(shape) IN
+   \A dt \in {"f32", "f64"}, off \in {0, 2, 5} :
+      LET Xr == T(dt, shape, [k \in 1..Size(shape) |-> (((k + off) * 5) % 7) - 3]) IN
+      /\ \A axis \in 0..(r - 1) :
+            LET attrs == <<AI("axis", axis), AI("keepdims", 0)>> s == SemArgMax(Xr, attrs) IN
+            P(CaseRec("order", "ArgMax", attrs, <<MapRank(Xr)>>, s, <<Tag(s), dt, "extreme_magnitudes">>))
+      /\ \A op \in {"ReduceMax", "ReduceMin"}, axis \in 0..(r - 1) :
+            LET attrs == <<AIs("axes", <<axis>>), AI("keepdims", 0)>> s == SemReduce(op, Xr, attrs) IN
+            P(CaseRec("order", op, attrs, <<MapRank(Xr)>>, [s EXCEPT !.value = <<MapRank(s.value[1])>>], <<Tag(s), dt, "extreme_magnitudes">>))
+
 \* an axis at the edge of the 64-bit range is out of range for every tensor
 ExtremeAxisCases(shape) ==
    \A k \in 1..Len(ExtremeI64) : LET e == ExtremeI64[k] X == Dist("f32", shape) IN
@@ -98,7 +113,7 @@ Init ==
 Emit ==
    /\ ~st.done
    /\ CASE st.fam = "long" -> LongCases(st.shape)
-        [] st.fam = "argmax" -> ArgMaxCases(st.shape) /\ (Len(st.shape) = 2 => ArgMaxDt(st.shape)) /\ (Len(st.shape) <= 2 /\ st.shape[1] = 2 => ExtremeAxisCases(st.shape))
+        [] st.fam = "argmax" -> ArgMaxCases(st.shape) /\ (Len(st.shape) = 2 => ArgMaxDt(st.shape)) /\ (Len(st.shape) <= 2 /\ st.shape[1] = 2 => ExtremeAxisCases(st.shape)) /\ (Len(st.shape) \in {2, 3} /\ st.shape[1] = 3 => OrderCases(st.shape))
         [] st.fam = "reduce" -> ReduceCases(st.op, st.shape) /\ (Len(st.shape) = 2 => ReduceDt(st.op, st.shape))
         [] st.fam = "softmax" -> SoftCases(st.op, st.shape) /\ (st.op = "Softmax" => HugeCases(st.shape))
    /\ st' = [st EXCEPT !.done = TRUE]
